@@ -8,7 +8,7 @@ import itertools
 from tbxlint.facts import AnalysisBroken
 from tbxlint import minterp
 from tbxlint.minterp import P, S, Throw
-from rules.C13_history import stoi
+from rules.C13_history import stoi, libc_hooks
 
 TI = 'tbox::terminal::Terminal::Impl'
 BUILTIN = ('ls', 'pwd', 'cd', 'help', 'history', 'exit', 'quit', 'tree')
@@ -52,6 +52,7 @@ class Session:
         self.it = minterp.Interp(prog, {'str:empty': [0]}, hooks=hooks, inline=('*',), max_steps=2000000)
         it = self.it
         it.string_mode = True
+        libc_hooks(it)
         it.max_depth = 60
         it.noeval = set(getattr(it, 'noeval', ())) | {'LogInfo', 'LogWarn', 'LogDbg', 'LogNotice'}
         self.sess = {'__cls__': 'SessionContext', '__open__': True, 'history': [], 'curr_input': S(''), 'token': 0, 'wp_conn': 0, 'options': 0, 'cursor': 0, 'history_index': 0}
